@@ -15,7 +15,9 @@ error_cause*.go (Model/Codec.lean; tied to the code by the `TestVerifCodec` diff
 
 Known and replayed on every run (known_findings.txt): F-codec-1 (an empty HEARTBEAT-ACK is accepted
 but cannot be re-encoded), F-codec-2 (a trailing 4-byte INIT parameter is not decoded). Both are
-stated below as witness theorems; they are why `C12_reencode_stable` is `_partial`.
+stated below as witness theorems; they are why `C12_reencode_stable` is `_partial` (its hypothesis
+`CodecSpec.reencodable` excludes exactly these two decoded shapes).
+Chunk values may be up to 65535 bytes: for 65532…65535 the 16-bit chunk length wraps on both sides.
 -/
 namespace C12
 open Codec CodecSpec
@@ -114,20 +116,25 @@ theorem C12_emitted_aligned (pre : Bytes) (hpre : pre.length % 4 = 0) (cs : List
 
 /-! ### re-encode stability -/
 
-/-- PARTIAL (what is missing: "every accepted packet decodes to a `wfPacket` up to `norm`", which is
-false for the two behaviours below). For a well-formed packet, encode–decode–encode is a fixpoint at
-once: the decoded structure is the packet and re-encoding gives the same bytes. -/
-theorem C12_reencode_stable_partial (crc : Bytes → BitVec 32) (p : Packet) (h : wfPacket p = true)
-    (raw : Bytes) (he : encWith crc true p = .ok raw) (doChecksum : Bool) :
-    decWith crc doChecksum raw = .ok p ∧ ∀ p', decWith crc doChecksum raw = .ok p' → encWith crc true p' = .ok raw := by
-  obtain ⟨raw', he', hd'⟩ := packet_roundtrip crc p h
-  rw [he] at he'
-  cases he'
-  refine ⟨hd' doChecksum, ?_⟩
-  intro p' hp'
-  rw [hd' doChecksum] at hp'
-  cases hp'
-  exact he
+/-- RE-ENCODE STABILITY, PARTIAL. Full strength would be: for EVERY accepted packet. That is false in
+the code as it is (the two witness theorems below), so the hypothesis `reencodable` excludes exactly
+those two decoded shapes: a HEARTBEAT-ACK without parameter, and an INIT / INIT-ACK whose last
+recognised parameter encodes to 4 bytes. For every other accepted byte string — any flag, any chunk
+types, malformed-but-accepted bodies, trailing junk inside chunks, 65532…65535-byte values included —
+the decoded packet `p` re-encodes successfully, the re-encoding decodes (for every receiver flag) to
+`norm p` (= `p` without the never-marshalled list of unrecognised INIT parameters), and `norm p`
+re-encodes to the same bytes: a fixpoint after one round. -/
+theorem C12_reencode_stable_partial (crc : Bytes → BitVec 32) (doChecksum : Bool) (raw : Bytes) (p : Packet)
+    (h : decWith crc doChecksum raw = .ok p) (hr : p.chunks.all reencodable = true) :
+    ∃ raw', encWith crc true p = .ok raw' ∧ (∀ dc', decWith crc dc' raw' = .ok (norm p)) ∧
+      encWith crc true (norm p) = .ok raw' :=
+  reencode_stable crc doChecksum raw p h hr
+
+/-- every chunk the decoder returns is well formed after `normChunk`, unless it is one of the two
+shapes — in particular its re-encoding fits its length fields -/
+theorem C12_decoded_wf (t f : Byte) (v : Bytes) (c : Chunk) (h : decBody t f v = .ok c) (hv : v.length < 65536)
+    (hr : reencodable c = true) : wfChunk (normChunk c) = true :=
+  decBody_wf h hv hr
 
 /-- WITNESS (F-codec-1) that full-strength re-encode stability is false in the code as it is: the
 16-byte packet with an empty HEARTBEAT-ACK is accepted and decodes to a structure the encoder refuses. -/
@@ -151,5 +158,11 @@ example : wfPacket ⟨5000, 5000, 1, [.sack 0 7 1500 [(2, 3)] [9], .data false t
     .iForwardTsn 0 9 [(1, true, 5), (1, false, 6)], .heartbeat [.heartbeatInfo [1#8]]]⟩ = true := by decide
 example : (u16 0#8 5#8 - 4#16).toNat = ([0x41#8] : Bytes).length := by decide
 example : wfPacket ⟨0, 0, 0, [.init 0 ⟨1, 1500, 1, 1, 1, [.ecnCapable], []⟩]⟩ = false := by decide
+/-- the hypothesis of `C12_reencode_stable_partial` holds for a decoded packet with unrecognised INIT
+parameters (where `norm p ≠ p`) and fails for exactly the witnesses -/
+example : (Packet.mk 1 2 3 [.init 0 ⟨1, 1500, 1, 1, 1, [.stateCookie [1#8]], [(9#16, [])]⟩, .heartbeatAck 0 [.heartbeatInfo []]]).chunks.all
+    reencodable = true := by decide
+example : reencodable (.heartbeatAck 0 []) = false ∧ reencodable (.init 0 ⟨1, 1500, 1, 1, 1, [.ecnCapable], []⟩) = false := by
+  decide
 
 end C12
